@@ -337,6 +337,13 @@ func (w *World) runRequest(t *Task, rs *ReqSpec) {
 		panic("sim: unknown actor " + rs.Actor)
 	}
 	cctx, cancel := context.WithCancel(context.Background())
+	switch rs.CtxDone {
+	case "canceled":
+		cancel()
+	case "deadline":
+		cancel()
+		cctx, cancel = context.WithDeadline(context.Background(), time.Unix(0, 0))
+	}
 	t.cancel = cancel
 	ctx := context.WithValue(cctx, ctxKey("task"), t.ID)
 	if t.Parent == nil {
